@@ -53,6 +53,7 @@ static void run_case(CaseCtx& c)
     cfg.ntheta_exp = -1;
     cfg.aniso = rng.coin(0.15) ? 2 : 0;
     cfg.cycle = rng.range(0, 2);
+    cfg.maxLevels = rng.pick({-1, -1, -1, 2, 3}); // the order is a property of the discretisation, not of the hierarchy depth
     cfg.fmg = false; // with FMG the initial residual is already tiny and a relative tolerance of 1e-10 sits below the rounding floor
     cfg.maxIterations = 200;
     cfg.abs_tol = -1;
